@@ -180,9 +180,15 @@ def c05(tier: str) -> list[dict[str, Any]]:
     return out
 
 
+def _no_list(run: Any) -> None:
+    """A worker restriction with several excluded variants, written as in nets.cfg (comma and blank)."""
+    run.graph.workers["net2"].net.update_restrs({"vm2": "no WinXP, Win10\n"})
+
+
 def c08(tier: str) -> list[dict[str, Any]]:
     m = [M.c08]
     out = [
+        plan("G2 a worker excluding two variants of vm2, the needed one listed second", trav.menu("G2", label="G2-no-list"), m, K=1, statuses=["PASS"], pool_fixed={"install": ["shared"]}, setup=_no_list),
         plan("G2 2 workers, who produces is schedule dependent", trav.menu("G2"), m, K=1, statuses=["PASS", "FAIL", "WARN"], max_nonpass=1),
         plan("G2 2 workers, a setup test is skipped or cancelled", trav.menu("G2"), m, K=1, statuses=["PASS", "SKIP", "CANCEL", "INTERRUPTED"], max_nonpass=1, pool_fixed={"install": ["shared"]}),
         plan("G3 2 workers", trav.menu("G3"), m, K=1, statuses=["PASS", "FAIL"], max_nonpass=1, pool_fixed=DEEP),
